@@ -37,6 +37,13 @@ static int fidx(std::string const & k) { char c = k.data()[0]; if (c == 'a') ret
 extern "C" FMap::const_iterator stub_f_find(FMap const *, std::string const & k) { int i = fidx(k); return FMap::const_iterator(fpresent[i] ? &fnodes[i] : nullptr); }
 extern "C" FMap::const_iterator stub_f_end(FMap const *) { return FMap::const_iterator(nullptr); }
 extern "C" TemplateFunction & stub_f_index(FMap *, std::string const & k) { int i = fidx(k); fpresent[i] = true; return fnodes[i]._M_valptr()->second; }
+// a refactoring may replace has()+operator[] by try_emplace: same table model (element kept if the key is present)
+extern "C" std::pair<FMap::iterator, bool> stub_f_try_emplace(FMap *, std::string const & k, TemplateFunction &) {
+    int i = fidx(k);
+    if (fpresent[i]) return {FMap::iterator(&fnodes[i]), false};
+    fpresent[i] = true;
+    return {FMap::iterator(&fnodes[i]), true};
+}
 extern "C" size_t stub_f_erase(FMap *, std::string const & k) { int i = fidx(k); if (!fpresent[i]) return 0; fpresent[i] = false; return 1; }
 
 // ---- fixed-capacity models of the vector mutators (layout of the vector objects is libstdc++'s; accessors stay real)
